@@ -1256,8 +1256,14 @@ func (m *MapPollard) GetHash(pos uint64) Hash {
 	m.rwLock.RLock()
 	defer m.rwLock.RUnlock()
 
-	if m.TotalRows != TreeRows(m.NumLeaves) {
-		pos = translatePos(pos, TreeRows(m.NumLeaves), m.TotalRows)
+	if inForest(pos, m.NumLeaves, TreeRows(m.NumLeaves)) {
+		if m.TotalRows != TreeRows(m.NumLeaves) {
+			pos = translatePos(pos, TreeRows(m.NumLeaves), m.TotalRows)
+		}
+	} else if !inForest(pos, m.NumLeaves, m.TotalRows) {
+		// Not a position of the forest in either the minimal or the
+		// allocated rows.
+		return empty
 	}
 	leaf, _ := m.Nodes.Get(pos)
 	return leaf.Hash
